@@ -227,17 +227,18 @@ fn t_roundtrip_instant_std_wire_std() {
     kani::cover!(true, "C19/roundtrip/SystemTime->Instant->SystemTime/reached");
 }
 
-// ---- the four chrono conversions on the REAL chrono 0.4.40 (thorough tier only)
-// Quick tier proves these by Verus against assumed chrono contracts. Here the real chrono bodies
-// run: refutations are fast (a wrapped negative delta is found in 1.5 s) and give concrete
-// inputs; proofs through chrono's div/rem arithmetic may not finish within the thorough timeout,
-// in which case the obligation is reported undecided here and stays "modulo assumed contracts".
+// ---- the four chrono conversions on the REAL chrono 0.4.40: counterexample finders
+// The proof of these four is Verus's, against assumed chrono contracts. Here the real chrono
+// bodies run: refutations are fast (a wrapped negative delta is found in 1.5 s) and give concrete
+// inputs, also for bodies that use chrono calls the Verus unit has no contract for; proofs
+// through chrono's div/rem arithmetic do not finish (15 min tried), so on a correct tree these
+// harnesses are reported "not finished" (never as an error, never as proved).
 #[cfg(feature = "chrono")]
 use chrono::{DateTime, TimeDelta, Utc};
 
 #[cfg(feature = "chrono")]
 #[kani::proof]
-#[kani::solver(z3)] // THOROUGH OPTIONAL
+#[kani::solver(z3)] // OPTIONAL TIMEOUT=75 (quick tier: counterexample finder with a 75 s budget; thorough: full timeout)
 fn t_chrono_timedelta_to_duration_real() {
     let n: i64 = kani::any();
     let td = TimeDelta::nanoseconds(n);
@@ -250,7 +251,7 @@ fn t_chrono_timedelta_to_duration_real() {
 
 #[cfg(feature = "chrono")]
 #[kani::proof]
-#[kani::solver(z3)] // THOROUGH OPTIONAL
+#[kani::solver(z3)] // OPTIONAL TIMEOUT=75 (quick tier: counterexample finder with a 75 s budget; thorough: full timeout)
 fn t_chrono_duration_to_timedelta_real() {
     let n: u64 = kani::any();
     match TimeDelta::try_from(Duration { nanos: n }) {
@@ -262,7 +263,7 @@ fn t_chrono_duration_to_timedelta_real() {
 
 #[cfg(feature = "chrono")]
 #[kani::proof]
-#[kani::solver(z3)] // THOROUGH OPTIONAL
+#[kani::solver(z3)] // OPTIONAL TIMEOUT=75 (quick tier: counterexample finder with a 75 s budget; thorough: full timeout)
 fn t_chrono_datetime_to_instant_real() {
     let (s, ns): (i64, u32) = (kani::any(), kani::any());
     let Some(dt) = DateTime::<Utc>::from_timestamp(s, ns) else {
@@ -277,7 +278,7 @@ fn t_chrono_datetime_to_instant_real() {
 
 #[cfg(feature = "chrono")]
 #[kani::proof]
-#[kani::solver(z3)] // THOROUGH OPTIONAL
+#[kani::solver(z3)] // OPTIONAL TIMEOUT=75 (quick tier: counterexample finder with a 75 s budget; thorough: full timeout)
 fn t_chrono_instant_to_datetime_real() {
     let (s, ns): (u64, u32) = (kani::any(), kani::any());
     kani::assume(ns < 1_000_000_000);
